@@ -889,6 +889,18 @@ func c01R5(c *Ctx) {
 			continue
 		}
 		c.Require("C01.R5", "SetInvalid only for valid addresses absent from the cloud list", fn, s.Call, "$v.status == ipStatusValid && !$s.Has($v.ip)", map[string]string{"$v": recv, "$s": setVar})
+		// completeness: the loop skips an entry only when it is not valid or still reported
+		var loopBody *ast.BlockStmt
+		for _, n := range pathTo(fn.Decl.Body, s.Call) {
+			if rs, ok := n.(*ast.RangeStmt); ok {
+				loopBody = rs.Body
+			}
+		}
+		if loopBody == nil {
+			c.Undec("C01.R5", "every valid address absent from the cloud list is marked", p.Pos(s.Call), fn.Key(), "", "SetInvalid is not inside a range loop over the pool")
+		} else {
+			c.RequireReached("C01.R5", "every valid address absent from the cloud list is marked", fn, loopBody, s.Call, "$v.status == ipStatusValid && !$s.Has($v.ip)", map[string]string{"$v": recv, "$s": setVar})
+		}
 	}
 	// Local.sync: both families, matching result positions, under the lock
 	syncFn := p.Func(eniPkg, "Local.sync")
